@@ -529,8 +529,9 @@ class Check:
             "wall_s": round(wall, 2),
             "violations": len(violations),
         }
-        os.makedirs(os.path.join(VERIF, "evidence"), exist_ok=True)
-        with open(os.path.join(VERIF, "evidence", f"{self.pid}.json"), "w") as fh:
+        evdir = os.environ.get("VERIF_EVIDENCE_DIR", os.path.join(VERIF, "evidence"))
+        os.makedirs(evdir, exist_ok=True)
+        with open(os.path.join(evdir, f"{self.pid}.json"), "w") as fh:
             json.dump(ev, fh, indent=1, default=str)
         print(f"{self.pid} [{self.tier}] instances={len(self.records)} obligations={n_claims} (non-trivial {nontriv}) queries={stats_total['queries']} "
               f"unsat={stats_total['unsat']} sat={stats_total['sat']} unknown={stats_total['unknown']} solver={stats_total['solver_time_s']}s wall={wall:.1f}s "
@@ -542,7 +543,7 @@ class Check:
         sys.exit(0)
 
     def _write_replay(self, rec, f):
-        d = os.path.join(VERIF, "replays", self.pid)
+        d = os.path.join(os.environ.get("VERIF_REPLAY_DIR", os.path.join(VERIF, "replays")), self.pid)
         os.makedirs(d, exist_ok=True)
         data = {"property": self.pid, "scenario": rec["scenario"], "params": rec["params"], "real_t": rec["real_t"], "claim": f["name"], "model": f["model"] or {},
                 "cmd": f"./check {self.pid} --replay <this file>"}
@@ -572,7 +573,7 @@ class Check:
 def _hashes(files):
     out = {}
     for f in files:
-        p = os.path.join("/repo", f)
+        p = os.path.join(os.environ.get("VERIF_REPO", "/repo"), f)
         try:
             out[f] = hashlib.sha256(open(p, "rb").read()).hexdigest()[:16]
         except OSError:
